@@ -14,6 +14,7 @@ import json
 import os
 import random
 import re
+import signal
 import subprocess
 import sys
 import time
@@ -73,16 +74,24 @@ def sh(cmd, timeout=600, cwd=None, env=None, input=None):
     e.setdefault("CARGO_NET_OFFLINE", "true")
     if env:
         e.update(env)
+    # own process group, so that a time-out kills the whole tree (a shell's children included)
+    p = subprocess.Popen(cmd, shell=isinstance(cmd, str), cwd=cwd, env=e,
+                         stdin=subprocess.PIPE if input is not None else None,
+                         stdout=subprocess.PIPE, stderr=subprocess.STDOUT,
+                         text=True, errors="replace", start_new_session=True)
     try:
-        p = subprocess.run(cmd, shell=isinstance(cmd, str), cwd=cwd, env=e, input=input,
-                           stdout=subprocess.PIPE, stderr=subprocess.STDOUT, timeout=timeout,
-                           text=True, errors="replace")
-        return p.returncode, p.stdout
-    except subprocess.TimeoutExpired as ex:
-        out = ex.stdout or ""
-        if isinstance(out, bytes):
-            out = out.decode(errors="replace")
-        return 124, out + "\n[timeout after %ss]" % timeout
+        out, _ = p.communicate(input=input, timeout=timeout)
+        return p.returncode, out
+    except subprocess.TimeoutExpired:
+        try:
+            os.killpg(p.pid, signal.SIGKILL)
+        except OSError:
+            pass
+        try:
+            out, _ = p.communicate(timeout=30)
+        except Exception:
+            out = ""
+        return 124, (out or "") + "\n[timeout after %ss]" % timeout
 
 
 class Check:
